@@ -28,8 +28,8 @@ theorem collect_masked (t : OT) (rest : List Core) (s : Nat) (n : Name)
     (hs : (compile t).length ≤ s) :
     collect ((compile t).reverse ++ rest) s n = collect rest (s - (compile t).length) n := by
   induction t generalizing rest s with
-  | lit fs =>
-    by_cases h : fs.isEmpty
+  | lit fs a =>
+    by_cases h : (fs.isEmpty && !a) = true
     · simp [compile, h]
     · simp [compile, h] at hs ⊢
       have : s ≠ 0 := by omega
@@ -49,10 +49,10 @@ theorem collect_compile (t : OT) (rest : List Core) (n : Name) :
     (collect ((compile t).reverse ++ rest) 0 n).map (·.1)
       = chainWith (defs t n) ((collect rest 0 n).map (·.1)) := by
   induction t generalizing rest with
-  | lit fs =>
-    by_cases h : fs.isEmpty
-    · have : fs = [] := by simpa using h
-      subst this; simp [compile, defs, lookup, chainWith]
+  | lit fs a =>
+    by_cases h : (fs.isEmpty && !a) = true
+    · obtain ⟨h1, h2⟩ : fs = [] ∧ a = false := by simpa using h
+      subst h1; subst h2; simp [compile, defs, lookup, chainWith]
     · simp only [compile, h, Bool.false_eq_true, ↓reduceIte, List.reverse_cons, List.reverse_nil,
         List.nil_append, List.cons_append, collect, defs, beq_self_eq_true]
       cases hl : lookup fs n with
@@ -77,18 +77,18 @@ theorem collect_compile (t : OT) (rest : List Core) (n : Name) :
 /-- each contribution is bound to the `sup` index of the core that defines it -/
 theorem collect_sup_sound (rev : List Core) (s : Nat) (n : Name) (f : Field) (l : Nat)
     (h : (f, l) ∈ collect rev s n) :
-    ∃ fs, rev.reverse[l]? = some (.oop fs) ∧ lookup fs n = some f := by
+    ∃ fs a, rev.reverse[l]? = some (.oop fs a) ∧ lookup fs n = some f := by
   induction rev generalizing s with
   | nil => simp [collect] at h
   | cons c rest ih =>
     cases c with
-    | oop fs =>
+    | oop fs a =>
       simp only [collect] at h
       have tail : ∀ s', (f, l) ∈ collect rest s' n →
-          ∃ fs', (Core.oop fs :: rest).reverse[l]? = some (.oop fs') ∧ lookup fs' n = some f := by
+          ∃ fs' a', (Core.oop fs a :: rest).reverse[l]? = some (.oop fs' a') ∧ lookup fs' n = some f := by
         intro s' hm
-        obtain ⟨fs', h1, h2⟩ := ih s' hm
-        refine ⟨fs', ?_, h2⟩
+        obtain ⟨fs', a', h1, h2⟩ := ih s' hm
+        refine ⟨fs', a', ?_, h2⟩
         have hl : l < rest.reverse.length := by
           rcases Nat.lt_or_ge l rest.reverse.length with hlt | hge
           · exact hlt
@@ -102,10 +102,10 @@ theorem collect_sup_sound (rev : List Core) (s : Nat) (n : Name) (f : Field) (l 
           · exact hg
           · cases hg
         have here : (f, l) = (g, rest.length) →
-            ∃ fs', (Core.oop fs :: rest).reverse[l]? = some (.oop fs') ∧ lookup fs' n = some f := by
+            ∃ fs' a', (Core.oop fs a :: rest).reverse[l]? = some (.oop fs' a') ∧ lookup fs' n = some f := by
           intro e
           cases e
-          refine ⟨fs, ?_, hlk⟩
+          refine ⟨fs, a, ?_, hlk⟩
           simp [List.reverse_cons]
         split at h
         · rcases List.mem_cons.mp h with e | hm
@@ -115,8 +115,8 @@ theorem collect_sup_sound (rev : List Core) (s : Nat) (n : Name) (f : Field) (l 
       · exact tail _ h
     | omitC ns k =>
       simp only [collect] at h
-      obtain ⟨fs', h1, h2⟩ := ih _ h
-      refine ⟨fs', ?_, h2⟩
+      obtain ⟨fs', a', h1, h2⟩ := ih _ h
+      refine ⟨fs', a', ?_, h2⟩
       have hl : l < rest.reverse.length := by
         rcases Nat.lt_or_ge l rest.reverse.length with hlt | hge
         · exact hlt
@@ -130,8 +130,8 @@ theorem hasGo_masked (t : OT) (rest : List Core) (s : Nat) (n : Name)
     (hs : (compile t).length ≤ s) :
     hasGo ((compile t).reverse ++ rest) s n = hasGo rest (s - (compile t).length) n := by
   induction t generalizing rest s with
-  | lit fs =>
-    by_cases h : fs.isEmpty
+  | lit fs a =>
+    by_cases h : (fs.isEmpty && !a) = true
     · simp [compile, h]
     · simp [compile, h] at hs ⊢
       have : s ≠ 0 := by omega
@@ -153,10 +153,10 @@ theorem isEmpty_append' (a b : List Field) : (a ++ b).isEmpty = (a.isEmpty && b.
 theorem hasGo_compile (t : OT) (rest : List Core) (n : Name) :
     hasGo ((compile t).reverse ++ rest) 0 n = (specHas t n || hasGo rest 0 n) := by
   induction t generalizing rest with
-  | lit fs =>
-    by_cases h : fs.isEmpty
-    · have : fs = [] := by simpa using h
-      subst this; simp [compile, specHas, defs, lookup]
+  | lit fs a =>
+    by_cases h : (fs.isEmpty && !a) = true
+    · obtain ⟨h1, h2⟩ : fs = [] ∧ a = false := by simpa using h
+      subst h1; subst h2; simp [compile, specHas, defs, lookup]
     · simp only [compile, h, Bool.false_eq_true, ↓reduceIte, List.reverse_cons, List.reverse_nil,
         List.nil_append, List.cons_append, hasGo, specHas, defs]
       cases hl : lookup fs n <;> simp
@@ -202,8 +202,8 @@ theorem visGo_masked (t : OT) (rest : List Core) (s : Nat) (ex : Bool) (n : Name
     (hs : (compile t).length ≤ s) :
     visGo ((compile t).reverse ++ rest) s ex n = visGo rest (s - (compile t).length) ex n := by
   induction t generalizing rest s with
-  | lit fs =>
-    by_cases h : fs.isEmpty
+  | lit fs a =>
+    by_cases h : (fs.isEmpty && !a) = true
     · simp [compile, h]
     · simp [compile, h] at hs ⊢
       have : s ≠ 0 := by omega
@@ -224,10 +224,10 @@ theorem visGo_compile (t : OT) (rest : List Core) (ex : Bool) (n : Name) :
     visGo ((compile t).reverse ++ rest) 0 ex n
       = visWith (defs t n) ex (fun ex' => visGo rest 0 ex' n) := by
   induction t generalizing rest ex with
-  | lit fs =>
-    by_cases h : fs.isEmpty
-    · have : fs = [] := by simpa using h
-      subst this; simp [compile, defs, lookup, visWith]
+  | lit fs a =>
+    by_cases h : (fs.isEmpty && !a) = true
+    · obtain ⟨h1, h2⟩ : fs = [] ∧ a = false := by simpa using h
+      subst h1; subst h2; simp [compile, defs, lookup, visWith]
     · simp only [compile, h, Bool.false_eq_true, ↓reduceIte, List.reverse_cons, List.reverse_nil,
         List.nil_append, List.cons_append, visGo, defs]
       cases hl : lookup fs n with
@@ -281,7 +281,7 @@ theorem visAllGo_final (rev : List Core) (i ou : Nat) (v : Vis) (n : Name) (hv :
   | nil => rfl
   | cons c rest ih =>
     cases c with
-    | oop fs =>
+    | oop fs a =>
       simp only [visAllGo]
       cases hl : lookup fs n with
       | none => exact ih _ _
@@ -300,7 +300,7 @@ theorem visAllGo_eq_visGo (rev : List Core) (i ou skip : Nat) (ex : Bool) (n : N
   | nil => simp [visAllGo, visGo, curOf]
   | cons c rest ih =>
     cases c with
-    | oop fs =>
+    | oop fs a =>
       simp only [visAllGo, visGo]
       cases hl : lookup fs n with
       | none => exact ih _ _ _ _ (by omega)
@@ -333,12 +333,12 @@ theorem visAllGo_eq_visGo (rev : List Core) (i ou skip : Nat) (ex : Bool) (n : N
 
 theorem take_compile (t : OT) (l : Nat) : ∃ t', (compile t).take l = compile t' := by
   induction t generalizing l with
-  | lit fs =>
+  | lit fs a =>
     cases l with
-    | zero => exact ⟨.lit [], by simp [compile]⟩
+    | zero => exact ⟨.lit [] false, by simp [compile]⟩
     | succ l =>
-      refine ⟨.lit fs, ?_⟩
-      by_cases h : fs.isEmpty <;> simp [compile, h]
+      refine ⟨.lit fs a, ?_⟩
+      by_cases h : (fs.isEmpty && !a) = true <;> simp [compile, h]
   | add a b iha ihb =>
     simp only [compile, List.take_append]
     obtain ⟨a', ha⟩ := iha l
@@ -356,10 +356,10 @@ theorem take_compile (t : OT) (l : Nat) : ∃ t', (compile t).take l = compile t
 
 theorem compile_takeTerm (t : OT) (l : Nat) : compile (takeTerm t l) = (compile t).take l := by
   induction t generalizing l with
-  | lit fs =>
+  | lit fs a =>
     cases l with
     | zero => simp [takeTerm, compile]
-    | succ l => by_cases h : fs.isEmpty <;> simp [takeTerm, compile, h]
+    | succ l => by_cases h : (fs.isEmpty && !a) = true <;> simp [takeTerm, compile, h]
   | add a b iha ihb => simp [takeTerm, compile, List.take_append, iha, ihb]
   | rm o ns ih =>
     simp only [takeTerm]
@@ -466,10 +466,10 @@ theorem coreNames_compile (t : OT) (x : Name) : x ∈ coreNames (compile t) ↔ 
     | nil => rfl
     | cons c r ih => cases c <;> simp [coreNames, ih]
   induction t with
-  | lit fs =>
-    by_cases h : fs.isEmpty
-    · have : fs = [] := by simpa using h
-      subst this; simp [compile, coreNames, termNames]
+  | lit fs a =>
+    by_cases h : (fs.isEmpty && !a) = true
+    · obtain ⟨h1, h2⟩ : fs = [] ∧ a = false := by simpa using h
+      subst h1; subst h2; simp [compile, coreNames, termNames]
     · simp [compile, h, coreNames, termNames]
   | add a b iha ihb => simp [compile, app, termNames, iha, ihb]
   | rm o ns ih => simp [compile, app, termNames, coreNames, ih]
